@@ -140,6 +140,22 @@ def strip_raises(t):
     return t
 
 
+def _dead(t):
+    """value of a variable on a path where it was never bound (reading it
+    raises NameError, so it cannot contribute a value)"""
+    return t[0] == 'unk' and isinstance(t[1], str) and t[1].startswith('unbound:')
+
+
+def phi_node(c, a, b):
+    if a == b:
+        return a
+    if _dead(a):
+        return b
+    if _dead(b):
+        return a
+    return intern(('ite', c, a, b))
+
+
 class Interp:
     def __init__(self, prog, types=None, max_depth=8, opaque=(), decide=None,
                  no_inline_external_methods=True, inline_new=True,
@@ -286,7 +302,7 @@ class Interp:
                 a = o.env.get(k, ('unk', 'unbound:' + k))
                 b = env.get(k, ('unk', 'unbound:' + k))
                 if a != b:
-                    env[k] = intern(('ite', c, a, b))
+                    env[k] = phi_node(c, a, b)
         return env
 
     @staticmethod
@@ -483,7 +499,7 @@ class Interp:
             for k in set(fa.env) | set(fb.env):
                 x = fa.env.get(k, ('unk', 'unbound:' + k))
                 y = fb.env.get(k, ('unk', 'unbound:' + k))
-                merged[k] = x if x == y else intern(('ite', c, x, y))
+                merged[k] = phi_node(c, x, y)
             outs.append(Outcome('fall', merged, None, cond))
         elif len(falls) == 1:
             # the other branch left the function: no phi needed, but the
@@ -500,7 +516,10 @@ class Interp:
                     assigned.add(n.id)
         henv0 = dict(env)
         for n in assigned:
-            henv0[n] = ('unk', 'assigned-in-try:' + n)
+            if n in env:
+                henv0[n] = ('unk', 'assigned-in-try:' + n)
+            else:
+                henv0[n] = ('unk', 'unbound:' + n)
         tid = self.fresh()
         result = []
         falls = []
@@ -544,7 +563,7 @@ class Interp:
                 a = o.env.get(k, ('unk', 'unbound:' + k))
                 b = env.get(k, ('unk', 'unbound:' + k))
                 if a != b:
-                    env[k] = intern(('ite', c, a, b))
+                    env[k] = phi_node(c, a, b)
         return env
 
     def iter_items(self, it):
@@ -955,6 +974,16 @@ class Interp:
         key = self.eval_slice(e.slice, env, frame, cond)
         return self.getitem_term(base, key)
 
+    @staticmethod
+    def _disjoint_keys(k1, k2):
+        if k1[0] in ('const', 'num') and k2[0] in ('const', 'num'):
+            return k1 != k2
+        if k1[0] == 'tuple' and k2[0] == 'tuple' and k1[1] and k2[1]:
+            a, b = k1[1][0], k2[1][0]
+            if a[0] in ('const', 'num') and b[0] in ('const', 'num'):
+                return a != b
+        return False
+
     def getitem_term(self, base, key):
         if base[0] in ('tuple', 'list') and is_num(key) and key[1].denominator == 1:
             i = int(key[1])
@@ -964,6 +993,13 @@ class Interp:
                 x == NONE or (is_num(x) and x[1].denominator == 1) for x in key[1:]):
             sl = slice(*[None if x == NONE else int(x[1]) for x in key[1:]])
             return (base[0], tuple(base[1][sl]))
+        if base[0] == 'call' and base[1] in ('numpy.array', 'numpy.asarray') and \
+                len(base[2]) == 1 and base[2][0][0] in ('list', 'tuple') and \
+                is_num(key) and key[1].denominator == 1:
+            items = base[2][0][1]
+            i = int(key[1])
+            if -len(items) <= i < len(items):
+                return items[i]
         if base[0] == 'dict' and key[0] in ('const', 'num'):
             for k, v in base[1]:
                 if k == key:
@@ -971,7 +1007,7 @@ class Interp:
         if base[0] == 'upd' and base[2] == 'item':
             if base[3] == key:
                 return base[4]
-            if base[3][0] in ('const', 'num') and key[0] in ('const', 'num'):
+            if self._disjoint_keys(base[3], key):
                 return self.getitem_term(base[1], key)
         return ('idx', base, key)
 
